@@ -5,6 +5,7 @@ CONSTANTS
   Ids <- Ids4_5
   IdPath <- U4
   THs = {1, 2}
+  LGs = {1}
   MaxHead = 2
   Peers <- LR
   Legacy <- NoPeer
@@ -13,6 +14,7 @@ CONSTANTS
   FIX_SET_COUNT = TRUE
   FIX_MERGE_UP = TRUE
   FIX_NIL_HASH = TRUE
+  DEV_SAME_COUNT_EQUAL = FALSE
   GenDepth = 10
   GenMany = 2
   GenPick = 1
